@@ -208,37 +208,46 @@ func EvalTerm(t *T, m map[string]uint64) uint64 {
 	return term.Eval(t, m, map[*T]uint64{})
 }
 
-// DischargeBatched first asks one query for the disjunction of all panic/unwind conditions
-// (the common case: none is reachable); only if that is not unsat are they decided one by one.
-// Assertions and cover points are always decided individually.
+// DischargeBatched first asks ONE query for the disjunction of all conditions that are expected
+// to be unsatisfiable (assertion violations, runtime panics, unwinding, shared writes) — on a
+// tree where the property holds that single unsat answer discharges all of them. Only if the
+// batch is not unsat are the members decided one by one (to name the failing one and to get a
+// model per assertion). Cover points (expected sat) are always decided individually.
 func (e *Engine) DischargeBatched(obs []Obligation, be solver.Backend, dir string, timeoutS, par int) []Outcome {
 	var batch, rest []Obligation
+	var folded []Outcome
 	for _, ob := range obs {
-		if (ob.Kind == "panic" || ob.Kind == "sharedwrite") && ob.Expect == "unsat" && !ob.Cond.IsFalse() {
+		switch {
+		case ob.Expect == "unsat" && ob.Cond.IsFalse():
+			folded = append(folded, Outcome{Ob: ob, Res: solver.Result{Status: "unsat", Solver: "folded"}, Status: "unsat", OK: true})
+		case ob.Expect == "unsat":
 			batch = append(batch, ob)
-		} else {
+		default:
 			rest = append(rest, ob)
 		}
 	}
-	var outs []Outcome
+	outs := folded
 	if len(batch) > 1 {
 		any := e.S.False
 		for _, ob := range batch {
 			any = e.S.Or(any, ob.Cond)
 		}
-		bob := Obligation{Name: batch[0].Name + "_batch", Kind: "panicbatch", Expect: "unsat", Cond: any,
-			Rec: Record{Msg: fmt.Sprintf("any of %d runtime-panic / shared-write conditions reachable", len(batch)), Kind: "panicbatch"}}
+		bob := Obligation{Name: batch[0].Name + "_batch", Kind: "batch", Expect: "unsat", Cond: any,
+			Rec: Record{Msg: fmt.Sprintf("any of %d unsat-expected conditions (assertions, panics, unwinding) reachable", len(batch)), Kind: "batch"}}
 		done := make(chan []Outcome, 1)
 		go func() { done <- e.Discharge([]Obligation{bob}, be, dir, timeoutS, 1) }()
 		restOut := e.Discharge(rest, be, dir, timeoutS, par)
 		bo := <-done
 		outs = append(outs, restOut...)
 		if bo[0].OK {
-			outs = append(outs, bo[0])
+			share := bo[0].Res.Seconds / float64(len(batch))
+			for _, ob := range batch {
+				outs = append(outs, Outcome{Ob: ob, Res: solver.Result{Status: "unsat", Solver: bo[0].Res.Solver + " (batch of " + fmt.Sprint(len(batch)) + ")", Seconds: share}, Status: "unsat", OK: true})
+			}
 		} else {
 			outs = append(outs, e.Discharge(batch, be, dir, timeoutS, par)...)
 		}
 		return outs
 	}
-	return e.Discharge(obs, be, dir, timeoutS, par)
+	return append(outs, e.Discharge(append(batch, rest...), be, dir, timeoutS, par)...)
 }
